@@ -126,6 +126,12 @@ def c20(timeout_ms=0):
     bk = w.get(backup)
     out.append(ob("database._get_db#upgrade.backup_is_original", copy_at is not None and (first_write is None or copy_at < first_write)
                   and bk.bytes_id == v1.bytes_id, "writes %s; backup %r" % (w.writes, bk)))
+    # ... also when something already sits at the backup path (a stale copy of an earlier upgrade, or anything else)
+    for sname, stale in (("stale_db", FState("db", fresh_schema(name, 1), (1,), rows="R-stale")), ("junk", FState("junk"))):
+        (k3, *r3), w3 = run(src, "_get_db", [P, name, ver], {P: v1, backup: stale})
+        out.append(ob("database._get_db#upgrade.backup_is_original[%s_at_backup_path]" % sname,
+                      k3 == "return" and w3.get(backup).bytes_id == v1.bytes_id and w3.get(P).rows == "R-original",
+                      "outcome %s; backup %r" % (k3, w3.get(backup))))
     # retry from every crash point reaches the same final state, and the backup is still the original
     nsteps = len(w.trace)
     bad = []
